@@ -526,7 +526,7 @@ func c10Child(r *ev.Run, batch int) {
 					rep(e.peer(cc, a, b), cc, a, b)
 					rep(e.direct(cc, a, b, sm[(i*7+j*3)%len(sm)]), cc, a, b)
 				}()
-				if batch == 0 && r.NeedSample() && len(a.k) > 2 && len(b.k) > 1 {
+				if r.NeedSample() && len(a.k) > 2 && len(b.k) > 1 {
 					r.Sample(map[string]interface{}{"column": cc.col.Desc(), "a": a.String(), "b": b.String()})
 				}
 			}
